@@ -27,6 +27,16 @@ argcounts: dict[str, int] = {'type': 1}
 
 unsafe_builtins = {
     'breakpoint',  # Remote code execution and interactive shell access
+    'compile',  # Running or compiling code
+    'eval',
+    'exec',
+    'open',  # File system access
+    'input',  # Reading input
+    'help',
+    'exit',  # Exiting the process
+    'quit',
+    'print',  # Output side effects
+    'delattr',  # Attribute manipulation (as setattr)
     'getattr',  # Attribute-based sandbox escapes and manipulation
     'hasattr',
     'setattr',
